@@ -253,7 +253,13 @@ func c13Values() []reflect.Value {
 	ch := make(chan int, 1)
 	vs := []interface{}{"{\"k\":\x00}", "it's\x1a", "a\\b\x00'", "v", "12", "2021-01-11 23:22:11", "1,2", "{}", "测试", int8(-3), int(7), int64(1) << 40, uint8(9), uint64(1) << 63, float32(1.5), 2.5, true,
 		[]int{1, 2}, []string{"a", "a"}, []float64{0.5}, [2]int{1, 1}, []interface{}{1, "a", nil}, map[string]int{"a": 1}, map[int]int{1: 1}, &five, &s, ch, func() {}, 1 + 2i,
-		struct{ A int }{1}, &struct{ A int }{1}, []*int{nil, &five}, [][]int{{1}}, []byte("ab"), uintptr(5), unsafe.Pointer(&five), interface{}(nil)}
+		struct{ A int }{1}, &struct{ A int }{1}, []*int{nil, &five}, [][]int{{1}}, []byte("ab"), uintptr(5), unsafe.Pointer(&five), interface{}(nil),
+		// arrays handed over by value (not addressable), of every element class
+		[3]byte{'a', 'b', 'c'}, [2]uint8{1, 1}, [0]byte{}, [2]bool{true, true}, [1]float32{1.5}, [2]string{"x", "x"}, [2]uintptr{1, 1}, [1][]byte{[]byte("q")}, [2]interface{}{1, 1}, [1]struct{ A int }{{1}},
+		// interface-typed elements whose dynamic values cannot be hashed or compared
+		[]interface{}{[]int{1}, []int{1}}, []interface{}{map[string]int{"a": 1}, 1, "1"}, []interface{}{func() {}, nil}, [2]struct{ V interface{} }{{[]int{1}}, {[]int{1}}},
+		[]interface{}{[]interface{}{1}, []interface{}{1}}, []interface{}{struct{ S []int }{[]int{1}}, struct{ S []int }{[]int{1}}}, []error{nil, fmt.Errorf("e")}, []fmt.Stringer{nil},
+		map[string][]interface{}{"k": {[]int{1}, []int{1}}}, []map[string]int{{"a": 1}, {"a": 1}}, []chan int{ch, ch}, []func(){nil, nil}, []*[]int{nil}, [][]interface{}{{[]int{1}}}}
 	out := []reflect.Value{}
 	for _, v := range vs {
 		if v == nil {
@@ -267,7 +273,7 @@ func c13Values() []reflect.Value {
 func init() {
 	core.Register(&core.Prop{
 		ID: "C13",
-		Rule: "(a) directed catalogue, complete: 41 nil / wrong-kind / nested-nil shapes x 23 entry-point variants, map and URL shapes (incl. '#' and '?' in every relative position) x 7 rule sets, user functions that write arbitrary bytes (nothing, one byte, no separator, only the separator, NUL) through every entry point that takes functions; (b) grammar-aware rule mutation: every rule key x 80 argument mutations (missing, empty, foreign, ~ count 0..3, non-numeric / overflowing bounds, brackets missing / reversed / nested, quotes unbalanced / escaped / empty, 0..6 datetime separators, layout-like separators, invalid regex, 70 KB arguments, NUL and invalid UTF-8) x 33 values of every kind through Var, Struct(RM), Map and Url; " +
+		Rule: "(a) directed catalogue, complete: 41 nil / wrong-kind / nested-nil shapes x 23 entry-point variants, map and URL shapes (incl. '#' and '?' in every relative position) x 7 rule sets, user functions that write arbitrary bytes (nothing, one byte, no separator, only the separator, NUL) through every entry point that takes functions; (b) grammar-aware rule mutation: every rule key x 80 argument mutations (missing, empty, foreign, ~ count 0..3, non-numeric / overflowing bounds, brackets missing / reversed / nested, quotes unbalanced / escaped / empty, 0..6 datetime separators, layout-like separators, invalid regex, 70 KB arguments, NUL and invalid UTF-8) x 57 values of every kind (incl. arrays passed by value, interface elements holding unhashable values) through Var, Struct(RM), Map and Url; " +
 			"(c) random bytes as rule text x random run-time synthesised struct values with nil at every level through Struct / StructForFn / NestedStructForRule, plus ValidNamesSplit, ParseValidNameKV, GenValidKV, GetOnlyExplainErr on random bytes; (d) thorough tier only: four native Go fuzz targets (coverage-guided, iteration-bounded) over Var, Struct/NestedStructForRule, Map/Url and the text helpers. Every call is wrapped in recover(); process-fatal errors are attributed through the journal. distinct = distinct (entry, input description); non-trivial = call reached the library with a non-default input",
 		Shards: func(t core.Tier) int { return 16 },
 		Run:    runC13,
